@@ -129,7 +129,11 @@ type dispatchResult struct {
 
 // run executes ops on a fresh emulator + model; returns the first failure (nil if none)
 func (r *runner) run(ops []Op, conns int, st *Stats, live *gen.G, gen1 func() (Op, bool)) (fail *Failure, done []Op) {
-	vs := redisemu.VerifNewStore("")
+	// a persist path makes the pseudo-operation SAVE meaningful: it writes the dirty databases and
+	// clears their dirty bits, which the model mirrors, so that every later mutator must set the bit again
+	dir, _ := os.MkdirTemp("", "verif-corr-")
+	defer os.RemoveAll(dir)
+	vs := redisemu.VerifNewStore(dir + "/snap")
 	r.d.Reset(r.quirks)
 	clients := map[int]*redisemu.VerifClient{}
 	defer func() {
@@ -174,6 +178,17 @@ func (r *runner) run(ops []Op, conns int, st *Stats, live *gen.G, gen1 func() (O
 		}
 		done = append(done, op)
 		argv := op.bytes()
+		if len(argv) == 1 && string(argv[0]) == "VERIF-SAVE" {
+			if err := vs.Save(); err != nil {
+				return &Failure{Kind: "harness", Detail: "save failed: " + err.Error(), Step: i}, done
+			}
+			r.d.MustAsk("V")
+			if f := check(i); f != nil {
+				return f, done
+			}
+			i++
+			continue
+		}
 		cl := clients[op.Conn]
 		if cl == nil {
 			cl = vs.NewClient()
@@ -382,6 +397,9 @@ func main() {
 					}
 					n++
 					conn, argv, mal := g.Next()
+					if g.R.Intn(12) == 0 {
+						conn, argv, mal = 1, []string{"VERIF-SAVE"}, false
+					}
 					if mal {
 						st.Malformed++
 					}
